@@ -306,3 +306,53 @@ def constructed(ix: Index, v):
 def constructed_class(ix: Index, v) -> Optional[str]:
     r = constructed(ix, v)
     return r[0] if r else None
+
+
+# ------------------------------------------------------------------ temporaries
+
+def resolve_temp(f: Optional[FuncDef], node, depth: int = 0):
+    """the expression a local name stands for, when the name is bound exactly once in f by a plain assignment
+    (`tmp = <expr>; ... tmp`); anything else is returned unchanged"""
+    if f is None or depth > 4 or not isinstance(node, ast.Name):
+        return node
+    bs = f.local_bindings().get(node.id, [])
+    if len(bs) == 1 and bs[0][0] == 'assign' and bs[0][1] is not None:
+        return resolve_temp(f, bs[0][1], depth + 1)
+    return node
+
+
+def return_value(f: Optional[FuncDef], ret: ast.Return):
+    """value expression of a return statement; `tmp = <expr>; return tmp` gives <expr>"""
+    v = ret.value
+    if isinstance(v, ast.Name):
+        par = parent(ret)
+        if par is not None:
+            for field in ('body', 'orelse', 'finalbody'):
+                blk = getattr(par, field, None)
+                if isinstance(blk, list) and ret in blk:
+                    i = blk.index(ret)
+                    if i > 0 and isinstance(blk[i - 1], ast.Assign) and len(blk[i - 1].targets) == 1 \
+                            and isinstance(blk[i - 1].targets[0], ast.Name) and blk[i - 1].targets[0].id == v.id:
+                        return blk[i - 1].value
+        return resolve_temp(f, v)
+    return v
+
+
+def returned_values(f: FuncDef) -> List[ast.AST]:
+    """value expressions of the return statements of f's own body, temporaries resolved"""
+    return [return_value(f, n) for n in walk_own(f.node) if isinstance(n, ast.Return) and n.value is not None]
+
+
+def block_return(f: Optional[FuncDef], stmts) -> Optional[ast.AST]:
+    """value of a block `[tmp = <expr>;] return <expr>|tmp` (temporaries resolved), else None"""
+    body = [s for s in stmts if not isinstance(s, (ast.Pass,))
+            and not (isinstance(s, ast.Expr) and isinstance(s.value, ast.Constant))]
+    if not body or not isinstance(body[-1], ast.Return) or body[-1].value is None:
+        return None
+    if len(body) == 1:
+        return resolve_temp(f, body[0].value)
+    if len(body) == 2 and isinstance(body[0], ast.Assign) and len(body[0].targets) == 1 \
+            and isinstance(body[0].targets[0], ast.Name) and isinstance(body[1].value, ast.Name) \
+            and body[1].value.id == body[0].targets[0].id:
+        return body[0].value
+    return None
